@@ -1036,6 +1036,16 @@ func (s *mSide) valueOrdinals() map[string]int {
 	return out
 }
 
+// physValueName is the name of the i-th non-pk column in physical order.
+func (s *mSide) physValueName(i int) string {
+	for n, o := range s.valueOrdinals() {
+		if o == i {
+			return n
+		}
+	}
+	return ""
+}
+
 // apply performs the change on the side's model.
 func (sc *mSchemaChange) apply(s *mSide) {
 	sc.done = true
